@@ -974,6 +974,14 @@ def call_builtin(it, name, args, kwargs, env, node):
             d = {}
         d.update(kwargs)
         return d
+    if name == "divmod" and len(args) == 2:
+        # divmod(a, b) == (a // b, a - b * (a // b))
+        ta, tb = to_term(args[0]), to_term(args[1])
+        if ta.is_number and tb.is_number and ta.is_Rational and tb.is_Rational and tb != 0:
+            q = sp.floor(ta / tb)
+        else:
+            q = op("floordiv", ta, tb)
+        return (q, ta - tb * q)
     if name == "zip":
         seqs = [it.iterate(a, env, node) for a in args]
         if all(s is not None for s in seqs):
